@@ -76,6 +76,11 @@ func main() {
 		"within one Prepare (free-running: since the last node event) without standing blocked in IsReady's receive is judged spinning (a parking one asks twice); " +
 		"decided from that count and one goroutine snapshot (IsReady more than 50 times on its stack = unbounded recursion), never from elapsed time; " +
 		"after the verdict the harness makes the follower live so that the goroutine unwinds (the fake state manager's goroutine-id bookkeeping walks the caller's stack, which slows a recursing caller down long before its stack reaches the runtime's limit)")
+	c.Assume("writes to a family past its writable window arrive over a write stream of their own: WriteHandler.Write calls BuildReplicaForLeader(leader, whole replica list) before the first message; " +
+		"a step drives the replicator the leader partition currently has registered for the follower (what partition.replicaLoop iterates over) and is a no-op while there is none; " +
+		"the leader's local replicator is created by the production path but not run, the flush of its family is modelled by consuming and acknowledging on its consumer group; " +
+		"a log that partition.IsExpire reports as expired ends the sequence (writeAheadLog.destroy and the log's re-creation by a later write are not modelled); " +
+		"sequences on an expired family contain no offline periods and no lost leader tail")
 	c.Assume("the local replicator on the follower (log -> tsdb) is not run; only the log copy is judged")
 	nSeq := c.Pick(1600, 100000)
 	per := c.Pick(25, 250)
@@ -242,6 +247,11 @@ func main() {
 		"lifecycle.later_offline_period_after_raced_online_notification.parked.onlineRecheckRace",
 		"lifecycle.later_offline_period_after_raced_online_notification.woken_and_channel_ready.onlineRace",
 		"lifecycle.later_offline_period_after_raced_online_notification.woken_and_channel_ready.onlineRecheckRace",
+		// gc tick on an expired family: a run that never had a tick stop the follower's drained channel while the local group
+		// still had data, never saw the next write stream re-create the channel and a late append arrive, says nothing about it
+		"expire_tick.stopped_drained_follower_channel.while_local_group_has_data", "expire_tick.follower_channel_kept(has_pending_positions)",
+		"lifecycle.channel_rebuilt_by_new_write_stream_after_expire_tick", "lifecycle.late_append_replicated_after_expire_tick",
+		"expire_tick.log_expired(all_groups_drained).follower_holds_everything", "step.no_follower_channel(stopped_by_expire_tick)",
 	} {
 		if c.Counter(k) == 0 {
 			c.Inconclusive("never observed: %s", k)
